@@ -156,6 +156,11 @@ def handlePercent (j : Json) : Except String Json := do
   return Json.mkObj [("encoded", String.ofList (out.map Char.ofNat)),
     ("roundtrip", toJson (Percent.decode out == some (t.toUTF8.toList.map UInt8.toNat)))]
 
+/-- {"op":"confirm","line":S} → does `Recipe::confirm` take the typed line for a yes? -/
+def handleConfirm (j : Json) : Except String Json := do
+  let l ← j.getObjValAs? String "line"
+  return Json.mkObj [("accepts", toJson (Run.confirmAccepts l))]
+
 def handleWorkdir (j : Json) : Except String Json := do
   let c : Workdir.Ctx ← fromJson? (← j.getObjVal? "ctx")
   let a : Workdir.Attrs ← fromJson? (← j.getObjVal? "attrs")
@@ -561,6 +566,7 @@ def handle (line : String) : Json :=
       | "clean" => handleClean j
       | "entries" => handleEntries j
       | "percent" => handlePercent j
+      | "confirm" => handleConfirm j
       | "args" => handleArgs j
       | "childenv" => handleChildEnv j
       | "workdir" => handleWorkdir j
